@@ -267,7 +267,8 @@ extern "C" void harness(void)
 #elif OP == 6  // ------------------------------------------------ C_InitToken is refused while a session on the slot exists
 	CK_SLOT_ID sid = nondet_bool() ? SLOT_ID[nondet_bool() ? 1 : 0] : nondet_ulong();
 	static CK_UTF8CHAR pin[BS_CAP]; static CK_UTF8CHAR label[32]; CK_ULONG pinLen = nondet_uchar(); vassume(pinLen <= BS_CAP);
-	CK_RV rv = hsm->C_InitToken(sid, nondet_bool() ? pin : NULL, pinLen, nondet_bool() ? label : NULL);
+	bool nullPin_ = !nondet_bool(), nullLabel_ = !nondet_bool();      // (one nondet input per statement: argument evaluation order is unspecified and differs between clang and g++)
+	CK_RV rv = hsm->C_InitToken(sid, nullPin_ ? NULL : pin, pinLen, nullLabel_ ? NULL : label);
 	Snap post = snap();
 	if ((sid == SLOT_ID[0] && preSess[0]) || (sid == SLOT_ID[1] && preSess[1])) { vassert(rv == CKR_SESSION_EXISTS); vassert(notes.initToken == 0); vreach(); }
 	if (notes.initToken) { vassert(sid == SLOT_ID[0] || sid == SLOT_ID[1]); vassert(!preSess[sid == SLOT_ID[0] ? 0 : 1]); vreach(); }
